@@ -282,4 +282,48 @@ def batchCert {α : Type} (k : SrvKind) (opFile : Option α) (runner fresh : α)
 /-- `req.ServerTlsCert = resp.PemCert` -/
 def handedCert {α : Type} (sc : SrvCert α) : Option α := sc.reported
 
+/-! ### `expandCases`: the request clone of one permutation and the server instance derived from it
+
+`serverInstanceForCase` (and the server-config accounting of `run`) reads a permutation's instance off
+the REQUEST: protocol and HTTP version, `len(ServerTlsCert) > 0`, `ClientTlsCreds != nil`.  The request
+is a clone of the suite's template; `expandCases` owns those fields. -/
+
+/-- what a suite's request template may carry in the two fields the grouping reads -/
+structure Tmpl where
+  cert : Bool
+  creds : Bool
+deriving DecidableEq, Repr, Inhabited
+
+/-- the part of a config case the grouping depends on (`certs` = the suite relies on client certificates) -/
+structure CfgCase where
+  proto : Nat
+  ver : Nat
+  tls : Bool
+  certs : Bool
+deriving DecidableEq, Repr, Inhabited
+
+/-- `expandCases`, the placeholder block: under TLS the certificate placeholder is set and the client
+credentials set or CLEARED; without TLS both are CLEARED -/
+def expandTmpl (c : CfgCase) (_t : Tmpl) : Tmpl :=
+  if c.tls then { cert := true, creds := if c.certs then true else false }
+  else { cert := false, creds := false }
+
+/-- witness variant: the placeholders are only ever set, what the template carried stays -/
+def expandTmplSetOnly (c : CfgCase) (t : Tmpl) : Tmpl :=
+  let t1 := if c.tls then { t with cert := true } else t
+  if c.certs then { t1 with creds := true } else t1
+
+/-- `serverInstanceForCase` on a request whose protocol / version were assigned from the config case -/
+def instOfReq (c : CfgCase) (t : Tmpl) : Inst := ⟨c.proto, c.ver, t.cert, t.creds⟩
+
+/-- the instance a config case stands for -/
+def cfgInst (c : CfgCase) : Inst := ⟨c.proto, c.ver, c.tls, c.tls && c.certs⟩
+
+/-- the instance of a permutation as the name the library gives it says (`TLS:true` / `TLS:false` is a
+component of every full name; client certificates: TLS and the suite relies on them) -/
+def nameTLS (name : List String) : Option Bool :=
+  match name.find? (fun c => c == "TLS:true" || c == "TLS:false") with
+  | some c => some (c == "TLS:true")
+  | none => none
+
 end ConfModel.Run
